@@ -27,6 +27,8 @@ import (
 	"sync"
 	"sync/atomic"
 	"time"
+
+	syscall "golang.org/x/sys/unix"
 )
 
 // Session is used to wrap a reliable ordered connection and to
@@ -213,6 +215,10 @@ func (s *Session) initProtocol() error {
 	case err := <-resultCh:
 		return err
 	case <-timeout.C:
+		// wake up the initializing goroutine (which is blocked on connFd) and wait until it exits, otherwise it would go on
+		// using connFd and mapping share memory after newSession had cleaned up and returned.
+		_ = syscall.Shutdown(s.connFd, syscall.SHUT_RDWR)
+		<-resultCh
 		return fmt.Errorf("protocolInitializer init timeout:%d ms",
 			s.config.InitializeTimeout/time.Millisecond)
 	}
